@@ -1007,9 +1007,10 @@ var detKinds = []dkind{
 	{name: "hard-error{a=9,d=9}", keys: []string{"a", "d"}, vals: []int64{9, 9}, errKind: 2},
 	{name: "nil-resource", nilRes: true},
 	{name: "ok{c=2}@s2", keys: []string{"c"}, vals: []int64{2}, schema: c19s2},
+	// a partial result whose schema URL conflicts: the detector's own error and the conflict are both reported
+	{name: "partial{a=3}@s2", keys: []string{"a"}, vals: []int64{3}, schema: c19s2, errKind: 1},
 	// thorough only
 	{name: "partial-nil-resource", nilRes: true, errKind: 1},
-	{name: "partial{a=3}@s2", keys: []string{"a"}, vals: []int64{3}, schema: c19s2, errKind: 1},
 }
 
 type scripted struct {
@@ -1402,7 +1403,7 @@ func TestVerifC19(t *testing.T) {
 		listLen := enum.Pick(r, 4, 6)
 		charLen := enum.Pick(r, 6, 7)
 		tokLen := enum.Pick(r, 4, 5)
-		detKindsN := enum.Pick(r, 6, 8)
+		detKindsN := enum.Pick(r, 7, 8)
 		detLen := enum.Pick(r, 3, 4)
 
 		r.Bound("merge_keys", keys)
